@@ -101,7 +101,7 @@ def decide(pid, tier, seed, jobs, record, no_bounded, t0):
     proof_obls = [(f, o) for f, o in obls if o["kind"] != "cover"]
     covers = [(f, o) for f, o in obls if o["kind"] == "cover"]
     discharged = [(f, o) for f, o in proof_obls if o["status"] == "discharged"]
-    refuted = [(f, o) for f, o in proof_obls if o["status"] == "refuted"]
+    refuted = [(f, o) for f, o in proof_obls if o["status"] in ("refuted", "failed")]
     unknown = [(f, o) for f, o in proof_obls if o["status"] == "unknown"]
     vacuous = [(f, o) for f, o in covers if o["status"] == "vacuous"]
     undecided_fns = [r for r in results if r["status"] in ("out_of_subset", "missing")]
@@ -144,7 +144,9 @@ def decide(pid, tier, seed, jobs, record, no_bounded, t0):
     for fn, o in refuted:
         path = os.path.join(VERIF, "replays", pid, hashlib.sha1(o["name"].encode()).hexdigest()[:12] + ".json")
         rep = {"property": pid, "obligation": o["name"], "function": fn, "line": o["line"], "kind": o["kind"],
-               "solver": o["solver"], "verdict": "sat (counter-model found for path-condition and negated goal)",
+               "solver": o["solver"], "status": o["status"], "solver_reason": o.get("reason"),
+               "verdict": ("sat: counter-model found for path condition and negated goal" if o["status"] == "refuted" else
+                           "obligation not provable: the solver saturated quantifier instantiation without a proof (reason: %s); candidate counter-model attached" % o.get("reason")),
                "counter_model": o.get("model"), "smt2": o.get("smt2"),
                "failing_input": unmatched_inputs[0] if unmatched_inputs else None,
                "note": "counter-model is over the specification vocabulary (uninterpreted network semantics); "
